@@ -22,7 +22,8 @@ runs them under `garden playground-run` and `garden sandboxed-test` in a private
    detected by the same observers, so the oracle is not blind.
 
 All paths handed to built-ins stay inside the per-case scratch directory (a sandbox hole must not
-be able to damage anything else); every process runs under `RLIMIT_AS` 3 GB and a 10 s timeout.
+be able to damage anything else); every process runs under `ulimit -v 3000000` and a 10 s timeout; the
+per-run scratch tree under .build/scratch/sandbox/ is deleted afterwards.
 """
 import hashlib
 import importlib.util
@@ -30,7 +31,6 @@ import json
 import os
 import random
 import re
-import resource
 import shutil
 import subprocess
 import sys
@@ -102,12 +102,6 @@ def diff_snap(a, b):
         if a.get(k) != b.get(k):
             d.append("%s: %s -> %s" % (k, "absent" if k not in a else a[k][0], "absent" if k not in b else b[k][0]))
     return d
-
-
-def _limits():
-    lim = 3000000 * 1024
-    resource.setrlimit(resource.RLIMIT_AS, (lim, lim))
-    resource.setrlimit(resource.RLIMIT_CORE, (0, 0))
 
 
 def run_observed(garden, argv, case_dir, timeout=TIMEOUT):
